@@ -102,6 +102,13 @@ func agentMain(args []string) {
 		for range sig {
 		}
 	}()
+	// Heartbeats let the parent see whether this process was running on time.
+	go func() {
+		for {
+			time.Sleep(heartbeat * time.Millisecond)
+			log("hb")
+		}
+	}()
 	fmt.Println("ready")
 	<-goCh
 	if self >= 0 {
@@ -165,7 +172,9 @@ type outcome struct {
 	close0       int64
 	close1       int64
 	inconclusive string
-	notifyLag    int64 // ms between the agent's exit record and Close's return; -1 unknown
+	notifyLag    int64   // ms between the agent's exit record and Close's return; -1 unknown
+	beats        []int64 // times of the agent's heartbeats
+	agentGap     bool    // the agent's heartbeats show that it was not scheduled on time
 }
 
 const (
@@ -173,6 +182,7 @@ const (
 	marginHigh    = 650  // ms between an exit and the next escalation
 	slowAgent     = 200  // ms of lateness tolerated in the agent and in the escalation timers
 	slowHost      = 150  // ms of parent-side sleep overshoot tolerated
+	heartbeat     = 50   // ms between agent heartbeats
 	slowNotify    = 250  // ms from the agent's exit record to Close's return tolerated when stages differ
 	lateReturn    = 3000 // ms between the moment the exit was due and Close's return tolerated
 	hangAllowance = 15000
@@ -217,7 +227,13 @@ func hostWasSlow(from, to int64) bool {
 	return false
 }
 
-func runCase(s spec, dir string, id int) (o outcome) {
+// runCase starts the agent, waits at the barrier until every agent of the batch
+// is up (`ready` is called once this one is, `start` is closed when all are),
+// then closes the stream. No process is created while any Close of the batch
+// is running: a fork in this process would briefly duplicate the write ends of
+// the other agents' input pipes (until its exec), which delays their
+// end-of-file by however long the host takes to schedule that exec.
+func runCase(s spec, dir string, id int, ready func(), start <-chan struct{}) (o outcome) {
 	jpath := filepath.Join(dir, fmt.Sprintf("agent-%d.journal", id))
 	os.Remove(jpath)
 	defer os.Remove(jpath)
@@ -241,6 +257,8 @@ func runCase(s spec, dir string, id int) (o outcome) {
 			break
 		}
 	}
+	ready()
+	<-start
 	o.goSent = nowMs()
 	stream.Write([]byte("go\n"))
 	if s.pre {
@@ -274,6 +292,11 @@ func runCase(s spec, dir string, id int) (o outcome) {
 	if data, err := os.ReadFile(jpath); err == nil {
 		for _, l := range strings.Split(string(data), "\n") {
 			f := strings.Fields(l)
+			if len(f) == 2 && f[0] == "hb" {
+				t, _ := strconv.ParseInt(f[1], 10, 64)
+				o.beats = append(o.beats, t)
+				continue
+			}
 			if len(f) == 2 {
 				if _, dup := o.journal[f[0]]; !dup {
 					o.journal[f[0]], _ = strconv.ParseInt(f[1], 10, 64)
@@ -324,6 +347,35 @@ func runCase(s spec, dir string, id int) (o outcome) {
 			late("agent's SIGTERM reaction", x, t+int64(s.onTerm))
 		}
 	}
+	// the agent's heartbeats: was it scheduled on time between the start signal
+	// and the end of the case?
+	if g, ok := j["go"]; ok {
+		last := g
+		end := o.close1
+		for _, k := range []string{"exit-self", "exit-eof", "exit-term"} {
+			if x, ok := j[k]; ok && x < end {
+				end = x
+			}
+		}
+		for _, t := range append(append([]int64(nil), o.beats...), end) {
+			if t < g {
+				continue
+			}
+			if t > end {
+				t = end
+			}
+			if t-last > heartbeat+slowAgent {
+				o.agentGap = true
+				if o.inconclusive == "" {
+					o.inconclusive = fmt.Sprintf("agent heartbeat gap of %d ms", t-last)
+				}
+				break
+			}
+			last = t
+		}
+	} else {
+		o.agentGap = true
+	}
 	// the escalation timers themselves: how late did the stages begin?
 	if e, ok := j["eof"]; ok {
 		late("closing of standard input", e, o.close0+int64(s.delay))
@@ -362,6 +414,31 @@ func judge(s spec, o outcome) string {
 	if o.closeMs+1 < int64(start) {
 		return fmt.Sprintf("class=stage-early Close returned in stage %s after %d ms, before that stage can begin (%d ms)", o.stage, o.closeMs, start)
 	}
+	// Escalation consistency (no timing involved beyond "the agent was alive and
+	// beating"): a stage can only be reached through the previous ones.
+	beatAfter := func(t int64) bool {
+		for _, b := range o.beats {
+			if b >= t {
+				return true
+			}
+		}
+		return false
+	}
+	eofAt, sawEOF := o.journal["eof"]
+	termAt, sawTerm := o.journal["term"]
+	if o.agentGap {
+		// the agent itself was starved: its records say nothing about Close
+	} else if sawTerm && !sawEOF && beatAfter(termAt) {
+		return "class=escalation-skipped the agent received SIGTERM although its standard input was never closed"
+	}
+	if o.agentGap {
+	} else if o.stage == "kill" && !sawTerm && sawEOF && beatAfter(eofAt+int64(s.g1)+2*slowAgent) {
+		return "class=escalation-skipped the agent was killed without having received SIGTERM"
+	}
+	if o.agentGap {
+	} else if o.stage == "kill" && !sawTerm && !sawEOF && beatAfter(o.close0+int64(s.delay+s.g1)+2*slowAgent) {
+		return "class=escalation-skipped the agent was killed without its standard input having been closed"
+	}
 	want, exitAt := predict(s)
 	stalled := hostWasSlow(o.goSent, o.close1)
 	// Generous latency bound, checked whenever the host did not visibly stall:
@@ -383,8 +460,10 @@ func judge(s spec, o outcome) string {
 		return ""
 	}
 	if want != o.stage {
-		if o.notifyLag > slowNotify {
-			return "" // the exit reached Close too late for the comparison to mean anything
+		// Only meaningful when the agent demonstrably exited on time and Close
+		// returned right after: otherwise the host, not Close, decided the stage.
+		if o.notifyLag < 0 || o.notifyLag > slowNotify {
+			return ""
 		}
 		return fmt.Sprintf("class=stage-mismatch Close returned in stage %s, the earliest stage this agent reacts to is %s", o.stage, want)
 	}
@@ -592,18 +671,22 @@ func main() {
 		// Agents mostly sleep: run many cases at once.
 		par := c.Size(24, 48)
 		outs := make([]outcome, len(specs))
-		var wg sync.WaitGroup
-		sem := make(chan struct{}, par)
-		for i, s := range specs {
-			wg.Add(1)
-			sem <- struct{}{}
-			go func() {
-				defer wg.Done()
-				outs[i] = runCase(s, dir, i)
-				<-sem
-			}()
+		for lo := 0; lo < len(specs); lo += par {
+			hi := min(lo+par, len(specs))
+			var up, wg sync.WaitGroup
+			start := make(chan struct{})
+			for i := lo; i < hi; i++ {
+				up.Add(1)
+				wg.Add(1)
+				go func() {
+					defer wg.Done()
+					outs[i] = runCase(specs[i], dir, i, up.Done, start)
+				}()
+			}
+			up.Wait()
+			close(start)
+			wg.Wait()
 		}
-		wg.Wait()
 		time.Sleep(2 * slowHost * time.Millisecond) // let the probe close a stall in progress
 		for i, s := range specs {
 			o := outs[i]
@@ -611,11 +694,17 @@ func main() {
 			if o.inconclusive == "" && hostWasSlow(o.goSent, o.close1) {
 				o.inconclusive = "parent-side sleep probe stalled"
 			}
+			want, _ := predict(s)
 			if o.inconclusive != "" && verdict == "" {
 				c.Count("inconclusive (host not responsive enough)")
 				continue
 			}
-			want, _ := predict(s)
+			if want != o.stage && verdict == "" {
+				// the oracle attributed the different stage to the host (the agent was
+				// killed before it could react, or its exit reached Close late)
+				c.Count("inconclusive (stage decided by host latency)")
+				continue
+			}
 			c.Count("stage:" + o.stage)
 			if s.pre {
 				c.Count("already-exited-before-close")
